@@ -24,7 +24,7 @@ import (
 //
 // Block protocol (see /verif/lean/Driver/C20.lean):
 //
-//	C20.reset maxEntry bufSize baseNs datePrefix nfiles {complete nseg {count kind len a b}*}*
+//	C20.reset baseNs datePrefix nfiles {complete nseg {count kind len a b}*}*  => ok maxEntry bufSize size…
 //	C20.start | C20.next n | C20.seek ts | C20.fstart k | C20.fnext k n | C20.fseek k ts
 
 const c20DatePrefix = "2023-03-05T"
@@ -99,8 +99,7 @@ func (f c20File) content() []byte {
 
 func c20Fields(files []c20File) (fields []string) {
 	fields = []string{
-		"C20.reset", vutil.Itoa(maxEntrySize), vutil.Itoa(bufferSize),
-		strconv.FormatInt(c20Base, 10), vutil.Hex(c20DatePrefix), vutil.Itoa(len(files)),
+		"C20.reset", strconv.FormatInt(c20Base, 10), vutil.Hex(c20DatePrefix), vutil.Itoa(len(files)),
 	}
 	for _, f := range files {
 		fields = append(fields, vutil.B(f.complete), vutil.Itoa(len(f.segs)))
@@ -113,8 +112,8 @@ func c20Fields(files []c20File) (fields []string) {
 }
 
 func c20ParseFiles(f []string) (files []c20File) {
-	n := vutil.Atoi(f[5])
-	p := 6
+	n := vutil.Atoi(f[3])
+	p := 4
 	for i := 0; i < n; i++ {
 		fl := c20File{complete: vutil.UnB(f[p])}
 		nseg := vutil.Atoi(f[p+1])
@@ -210,7 +209,9 @@ func c20Run(f []string) (out []string) {
 		}
 		files := c20ParseFiles(f)
 		var paths []string
-		out = []string{"ok"}
+		// The constants of the implementation are part of the observation: the
+		// model runs with them.
+		out = []string{"ok", vutil.Itoa(maxEntrySize), vutil.Itoa(bufferSize)}
 		for i, fl := range files {
 			p := filepath.Join(dir, "querylog.json."+vutil.Itoa(len(files)-1-i))
 			b := fl.content()
